@@ -415,6 +415,13 @@ func genScript(r *hx.Rand, nops int) []string {
 		script = append(script, "push")
 	}
 	offs := []int{0, 0, 1, 5, 8, 15}
+	size := func() int { return r.Intn(4) }
+	if r.Chance(1, 5) {
+		// wide locations: offsets and sizes are 64 bit quantities in both record array backends; values that
+		// agree in their low 32 bits must stay distinct
+		offs = []int{0, 1, 5, 1 << 32, 1<<32 + 1, 1<<32 + 5, 1<<40 + 1, 1<<62 + 5, 1<<32 - 1}
+		size = func() int { return r.PickInt(0, 1, 2, 3, 1<<32, 1<<32+1, 1<<32+2, 1<<33+3, 1<<62+1) }
+	}
 	for i := 0; i < nops; i++ {
 		switch x := r.Intn(100); {
 		case x < 55 && blocks > 0:
@@ -423,9 +430,9 @@ func genScript(r *hx.Rand, nops int) []string {
 			if r.Chance(1, 3) {
 				b = r.Intn(blocks)
 			}
-			script = append(script, fmt.Sprintf("put %d %d %d %d", r.Intn(nkeys), b, offs[r.Intn(len(offs))], r.Intn(4)))
+			script = append(script, fmt.Sprintf("put %d %d %d %d", r.Intn(nkeys), b, offs[r.Intn(len(offs))], size()))
 		case x < 59 && blocks > 0 && backend == "dev":
-			script = append(script, fmt.Sprintf("putf %d %d %d %d", r.Intn(nkeys), blocks-1, offs[r.Intn(len(offs))], r.Intn(4)))
+			script = append(script, fmt.Sprintf("putf %d %d %d %d", r.Intn(nkeys), blocks-1, offs[r.Intn(len(offs))], size()))
 		case x < 80:
 			script = append(script, fmt.Sprintf("get %d", r.Intn(nkeys)))
 		case x < 90:
